@@ -270,7 +270,7 @@ pub fn run(args: &Args) -> i32 {
     rec.set_extra("exhaustive_scope", json!({"alphabet": 2, "blocks": 2, "max_block_len": max_len, "window_slices": [1, 2, 3], "complete": true}));
 
     // ---------- random: small alphabets, cross block copies, eviction, skip, reset and reuse
-    let n = args.vol(60_000, 3_000_000);
+    let n = args.vol(400_000, 20_000_000);
     par_cases(&rec, 171, n, |i, r| {
         let slice = *r.pick(&[5usize, 8, 16, 16, 64, 200, 1024, 4096]);
         let slices = r.usize(1, 8);
@@ -309,7 +309,7 @@ pub fn run(args: &Args) -> i32 {
     });
 
     // ---------- full size blocks (128 KiB slices, what the frame compressor uses), sampled
-    let n = args.vol(60, 2500);
+    let n = args.vol(200, 8000);
     par_cases(&rec, 172, n, |_, r| {
         let slice = 128 * 1024;
         let slices = *r.pick(&[1usize, 1, 2, 4]);
